@@ -1,5 +1,5 @@
 SPECIFICATION Spec
-CONSTANTS BaseSet = {1,2,3,4,5,6,7,8,9}  PairBaseSet = {1,2,3,4,5,6,7,8,9}  HierarchyCheck = TRUE
+CONSTANTS BaseSet = {1,2,3,4,5,6,7,8,9}  PairBaseSet = {1,2,3,4,5,6,7,8,9}  HierarchyCheck = TRUE  Shortcut = "none"
 CHECK_DEADLOCK FALSE
 INVARIANT CatalogueConsistent
 INVARIANT RejectedNotComputed
